@@ -369,3 +369,67 @@ def ray_defect(d, v, w):
     along = float(x @ u)
     off = float(abs(x[0] * u[1] - x[1] * u[0]))
     return off / max(float(np.linalg.norm(x)), 1e-300), along
+
+
+# -- coverage of a convex projective polygon inside the view ------------------------------------
+#
+# For representatives X_0..X_{nv-1} that span a *convex* cone in cyclic order
+# (det(X_i, X_{i+1}, X_k) has one sign for all i and all k not in {i, i+1}) the
+# projective polygon is the projectivisation of that cone: the chart point g
+# belongs to it iff y = (g inserted at the chart index, with 1) lies in the cone
+# or in its negative, i.e. iff det(X_i, X_{i+1}, y) has one sign for all i.
+# Independent of how the drawing code cuts the polygon into pieces.  (Seeded
+# change C19-r5-2: artificial vertices moved by the view diameter only, so that
+# they land inside the window when the polygon's vertex is far outside it.)
+
+def _unit(v):
+    return v / np.linalg.norm(v, axis=-1, keepdims=True)
+
+
+def convex_cone_orientation(X, margin=1e-9):
+    """+1 / -1 when the representatives span a convex cone in cyclic order
+    (all facet determinants of one sign, clearly non-zero), else 0."""
+    X = _unit(np.asarray(X, dtype=float))
+    nv = len(X)
+    if nv < 3:
+        return 0
+    signs = []
+    for i in range(nv):
+        nrm = np.cross(X[i], X[(i + 1) % nv])
+        ln = np.linalg.norm(nrm)
+        if ln < margin:
+            return 0
+        for k in range(nv):
+            if k in (i, (i + 1) % nv):
+                continue
+            d = float(nrm @ X[k]) / ln
+            if abs(d) < margin:
+                return 0
+            signs.append(d > 0)
+    if all(signs):
+        return 1
+    if not any(signs):
+        return -1
+    return 0
+
+
+def cone_membership(X, G, i):
+    """X (nv,3) convex cone in cyclic order, G (m,2) chart points of chart i.
+    Returns (inside, clearance): inside[k] True when G[k] is in the projective
+    polygon; clearance[k] = smallest |sine| of the angle between the point's
+    vector and a facet plane (small = too close to an edge to call)."""
+    X = _unit(np.asarray(X, dtype=float))
+    G = np.asarray(G, dtype=float)
+    Y = _unit(np.insert(G, i, 1.0, axis=-1))
+    N = _unit(np.cross(X, np.roll(X, -1, axis=0)))        # facet normals
+    S = Y @ N.T                                           # (m, nv)
+    inside = np.all(S > 0, axis=-1) | np.all(S < 0, axis=-1)
+    return inside, np.min(np.abs(S), axis=-1)
+
+
+def view_grid(xlim, ylim, n=15):
+    """n x n points strictly inside the view rectangle."""
+    xs = np.linspace(xlim[0], xlim[1], n + 2)[1:-1]
+    ys = np.linspace(ylim[0], ylim[1], n + 2)[1:-1]
+    gx, gy = np.meshgrid(xs, ys, indexing="ij")
+    return np.stack([gx.ravel(), gy.ravel()], axis=-1)
